@@ -10,10 +10,10 @@ BASELINE_OFF = ("cd /repo && /venv/bin/python -m pytest -ra -q -p no:cacheprovid
 
 CHECKS = {
     "C11": dict(
-        technique="exhaustive grammar enumeration (depth<=3) + escape-idiom embedding + Hypothesis-random trees; differential oracle vs independent ast.walk whitelist checker; bytecode and audit-hook confinement oracle",
+        technique="exhaustive grammar enumeration (depth<=3) + escape-idiom embedding + Hypothesis-random trees + coverage-guided token-sequence fuzzing (atheris/libFuzzer, oracle inside the target); differential oracle vs independent ast.walk whitelist checker; bytecode and audit-hook confinement oracle",
         text=("Generated-input search: every ast.expr kind of the interpreter composed exhaustively to depth 2 and by "
               "single-path embedding to depth 3 (~4.5e5 distinct sources quick, ~1.3e6 thorough), a sandbox-escape corpus "
-              "embedded at every child position, and random deeper trees. Accept => safe is decided against an independent "
+              "embedded at every child position, random deeper trees, and libFuzzer campaigns over token sequences (24k inputs quick, 3M thorough) guided by coverage of safe_eval. Accept => safe is decided against an independent "
               "whitelist walker; every accepted expression is additionally checked at bytecode level and evaluated under an "
               "audit hook. Exhaustive to the stated bound, no claim beyond it."),
         note="Trusts CPython's ast/dis/audit-hook machinery and the restated whitelist (node kinds, operators, 8 functions).",
@@ -21,7 +21,7 @@ CHECKS = {
 }
 
 CHECKS["C12"] = dict(
-    technique="exhaustive enumeration of expression trees (polynomial fragment by normal forms, extended fragment by exact grid evaluation) + Hypothesis-random trees; signature-bucket soundness oracle, metamorphic commutation/re-association relation, single-operator mutation discrimination",
+    technique="exhaustive enumeration of expression trees (polynomial fragment by normal forms, extended fragment by exact grid evaluation) + Hypothesis-random trees + coverage-guided fuzzing of byte-decoded expression trees (atheris/libFuzzer, coverage of semantic_id.py); signature-bucket soundness oracle, metamorphic commutation/re-association relation, single-operator mutation discrimination",
     text=("Generated-input search: all trees up to 7 (quick) / 8 (thorough) nodes of the polynomial fragment and up to 5/6 nodes of "
           "the extended fragment, plus random trees with up to 10 leaves over the full operator set. Every signature bucket is "
           "checked for value agreement (own polynomial normal form / exact integer grid), every tree against its mirrored, "
